@@ -275,6 +275,9 @@ func execute(t *testing.T, ck *Check, run int, seed uint64, scen, sched *simrt.T
 				for i := 0; i < s.Stalls; i++ {
 					ctx.FaultFired("F-thread-stall")
 				}
+				if s.UnlockYields > 0 {
+					ctx.ProbeN("post_unlock_preemptions", int(s.UnlockYields))
+				}
 				if s.AtomicYields > 0 {
 					ctx.ProbeN("atomic_preemptions", int(s.AtomicYields))
 				}
@@ -432,7 +435,7 @@ func minimise(t *testing.T, ck *Check, r *RunResult, v Violation, budget time.Du
 }
 
 func writeReplay(dir string, ck *Check, base uint64, r *RunResult, v Violation, scen, sched []uint32, minimised, stable bool) string {
-	rf := ReplayFile{Format: 3, Property: ck.Prop, Sub: ck.Sub, Clause: v.Clause, Key: v.Key, Msg: v.Msg,
+	rf := ReplayFile{Format: 4, Property: ck.Prop, Sub: ck.Sub, Clause: v.Clause, Key: v.Key, Msg: v.Msg,
 		Seed: r.Seed, BaseSeed: base, Run: r.Run, Tier: *flagTier, ScenTape: scen, SchedTape: sched,
 		Minimised: minimised, MinStable: stable, EventSeq: v.EventSeq, LogHash: r.Hash, Faults: r.Faults,
 		Summary: r.Summary, Trace: r.trace}
@@ -627,6 +630,7 @@ func doReplay(t *testing.T) {
 	*flagTier = rf.Tier
 	simrt.PostSendOff = rf.Format < 2 // format 1: written before the pre-emption point behind a send existed
 	simrt.AtomicOff = rf.Format < 3   // format 1, 2: before the one in front of atomic operations
+	simrt.UnlockOff = rf.Format < 4   // format 1-3: before the one behind an unlock
 	var ck *Check
 	for _, c := range registry {
 		if c.Prop == rf.Property && c.Sub == rf.Sub {
